@@ -963,6 +963,31 @@ protected:
       // Parse HTTP request
       HttpRequest httpReq = HttpRequest::fromWireFormat(requestData);
 
+      // RFC 9112 §7.3: hand the application the decoded payload of a chunked
+      // request (not the chunk framing), drop the transfer coding and record
+      // the decoded length.
+      {
+        std::string transferEncoding = httpReq.getHeader("Transfer-Encoding");
+        std::transform(transferEncoding.begin(), transferEncoding.end(),
+                       transferEncoding.begin(), ::tolower);
+        if (transferEncoding.find("chunked") != std::string::npos)
+        {
+          std::string decoded;
+          const auto headerEnd = requestData.find("\r\n\r\n");
+          const std::size_t bodyEnd =
+            headerEnd == std::string::npos
+              ? kChunkedInvalid
+              : findChunkedRequestEnd(requestData, headerEnd + 4, &decoded);
+          if (bodyEnd == std::string::npos || bodyEnd == kChunkedInvalid)
+          {
+            throw HttpRequestError(400, "Malformed chunked request body");
+          }
+          httpReq.body = std::move(decoded);
+          httpReq.headers.erase("Transfer-Encoding");
+          httpReq.setHeader("Content-Length", std::to_string(httpReq.body.size()));
+        }
+      }
+
       // Convert to our Request format
       Request req;
       // Populate the session id once, here, before any dispatch path — so every
@@ -1389,9 +1414,11 @@ protected:
   static constexpr std::size_t kChunkedInvalid = std::string::npos - 1;
 
   /// \brief Find the end of a chunked request body (RFC 9112 §7.1).
+  /// \param decoded if non-null, receives the concatenated chunk data.
   /// \return offset one past the message, std::string::npos if more data is
   /// needed, kChunkedInvalid if the body is malformed.
-  std::size_t findChunkedRequestEnd(const std::string &data, std::size_t bodyStart) const
+  std::size_t findChunkedRequestEnd(const std::string &data, std::size_t bodyStart,
+                                    std::string *decoded = nullptr) const
   {
     std::size_t pos = bodyStart;
 
@@ -1473,6 +1500,10 @@ protected:
       {
         iora::core::Logger::error("HttpServer: Chunk data not terminated by CRLF");
         return kChunkedInvalid;
+      }
+      if (decoded)
+      {
+        decoded->append(data, pos, chunkSize);
       }
       pos += chunkSize + 2;
     }
